@@ -108,3 +108,13 @@ def c20_unstack_fill_dtype_overwritten(w):
     if w['what'] == 'pivot_unstack_raised':
         return k.get('exception') in ('ValueError', 'TypeError')
     return w['what'] in ('pivot_unstack_empty_cell_not_fill', 'stack_unstack_roundtrip_extra_cell_not_fill')
+
+
+@predicate
+def c20_pivot_object_index_fields_with_datetime(w):
+    """several index fields of different kinds, one of them datetime64, with columns_fields: the
+    index is built from the object-converted keys (date objects) while the per-column-group frames
+    are keyed by datetime64."""
+    k = w['klass']
+    return (w['what'] == 'pivot_cell_mismatch' and k.get('n_index_fields', 0) > 1 and bool(k.get('index_fields_object'))
+            and bool(k.get('index_fields_have_datetime')) and k.get('n_columns_fields', 0) >= 1)
